@@ -1572,6 +1572,72 @@ def c05_verify_deadline(ctx):
     return q.result()
 
 
+def c07_check_probing_paths(ctx):
+    q = Q("c07_check_probing_paths", ["check_probing (one probe, first loop iteration)", "Probe::expired", "Probe::update_next_send"],
+          "every path of one iteration of check_probing over an ARBITRARY probe (start_time, next_send < 2^62) and any now < 2^62",
+          ["iterator and packet-building calls are opaque; Probe::expired / update_next_send are executed from their MIR", "clock < 2^62"])
+    f = ctx.funcs["check_probing"] if "check_probing" in ctx.funcs else ctx.funcs[ctx.fn("check_probing")]
+    now = z3.BitVec("now", 64)
+    ex = Explorer(ctx.funcs, ctx.consts, inline={"expired", "update_next_send"}, max_paths=600)
+    paths = ex.explore(f.name, args=[None, None, BV(now, 64)], assumptions=[z3.ULT(now, TWO62)])
+    seen = {"sent": 0, "finished": 0, "idle": 0}
+    outer = [b for b, (st, t) in f.blocks.items() if "hash_map::IterMut" in t and "Iterator>::next" in t]
+    if len(outer) != 1:
+        q.unknown.append("outer loop head of check_probing not found")
+        return q.result()
+    end_ok = ("return", "cut:loop@check_probing:" + outer[0])
+    for i, p in enumerate(paths):
+        if not p.outcome.startswith("panic") and p.outcome not in end_ok:
+            continue   # cut inside the inner loop over the probe's records: the iteration is not complete
+        if p.outcome.startswith("panic"):
+            probes = [o for o, fl in p.objs.items() if (2,) in fl]
+            pre = p.cond + [z3.ULT(fl[(2,)].e, TWO62) for o, fl in p.objs.items() if (2,) in fl and isinstance(fl[(2,)], BV)]
+            q.unsat(pre, "check_probing panics: " + p.outcome[6:46])
+            continue
+        calls = [e for e in p.events if e[0] == "call"]
+        names = [c[1].split("::")[-1] for c in calls]
+        # the probe object: the one whose next_send (field 3) was compared with now
+        probes = [(o, fl) for o, fl in p.objs.items() if (3,) in fl and isinstance(fl[(3,)], BV)]
+        if not probes:
+            continue   # map empty: nothing to do
+        o, fl = probes[0]
+        asked = "add_question" in names
+        done = any(c[1].startswith("Vec::<String>::push") for c in calls)
+        pushes = [c for c in calls if "BinaryHeap" in c[1] and c[1].endswith("::push")]
+        start = fl.get((2,))
+        if asked:
+            seen["sent"] += 1
+            if start is None or not isinstance(start, BV):
+                q.fail.append(("a probe is sent without checking whether probing is already over", f"path {i}"))
+                continue
+            pre = p.cond + [z3.ULT(start.e, TWO62)]
+            q.valid(pre, z3.ULT(now, start.e + 750), f"path {i}: no probe is sent once start + 750 ms has passed")
+            ns = fl[(3,)]
+            if done:
+                q.fail.append(("a probe that is reported finished is still sent", f"path {i}"))
+            if len(pushes) != 1:
+                q.fail.append(("no wake-up requested for the next probe", f"path {i}: {len(pushes)} timer pushes"))
+            else:
+                arg = pushes[0][2][1]
+                val = arg.items[0] if isinstance(arg, (Adt, Tup)) and arg.items else arg
+                q.valid(pre, val.e == now + 250, f"path {i}: the next probe (and its wake-up) is due 250 ms after this one", getattr(val, "taint", True))
+                q.valid(pre, ns.e == now + 250, f"path {i}: next_send' == now + 250")
+            q.witness(pre, f"path {i}: probe sent")
+        elif done:
+            seen["finished"] += 1
+            if start is not None and isinstance(start, BV):
+                q.valid(p.cond + [z3.ULT(start.e, TWO62)], z3.UGE(now, start.e + 750), f"path {i}: a probe is only reported finished from start + 750 ms on")
+            if pushes:
+                q.fail.append(("a finished probe requests a further wake-up", f"path {i}"))
+        else:
+            seen["idle"] += 1
+            if pushes:
+                q.fail.append(("an idle probe requests a wake-up", f"path {i}"))
+    if not (seen["sent"] and seen["finished"] and seen["idle"]):
+        q.unknown.append(f"expected sent/finished/idle paths, found {seen}")
+    return q.result()
+
+
 def c07_reannounce_delay(ctx):
     q = Q("c07_reannounce_delay", ["Zeroconf::send_unsolicited_response (tail)"],
           "window from the last clock read of send_unsolicited_response to the RegisterResend re-run (first loop iteration); clock < 2^62",
@@ -1613,8 +1679,8 @@ SPECS = {
     "C10": [c10_update_ttl, c10_known_answer_filter, c10_suppressed_ptr_no_additionals],
     "C05": [c05_reset_restores, c05_verify_deadline, c05_verify_shortens_only, c05_evict_predicate, c05_removed_addr_key],
     "C18": [c18_affected_host_lowercase],
-    "C07": [c07_probe_clock, c07_reannounce_delay],
-    "C12": [c12_poll_timeout, c12_ipcheck_rearm, c12_hostname_timeout_timer, c12_conflict_probe_timer, c12_tiebreak_retry_timer, c11_cache_flush_rule, c05_verify_deadline],
+    "C07": [c07_probe_clock, c07_reannounce_delay, c07_check_probing_paths],
+    "C12": [c12_poll_timeout, c12_ipcheck_rearm, c12_hostname_timeout_timer, c12_conflict_probe_timer, c12_tiebreak_retry_timer, c11_cache_flush_rule, c05_verify_deadline, c07_check_probing_paths],
     "C19": [c19_browse_backoff, c19_hostname_backoff, c19_resolve_retry, c19_initial_delay, c19_rerun_due, c19_browse_listener_gone],
     "C08": [c08_tiebreak_count_operands, c08_rename_by_record_kind, c08_answer_uses_resolved_host],
     "C16": [c16_decode_txt_step, c16_first_key_wins],
